@@ -396,6 +396,12 @@ def check_item(spec):
         res["findings"].append({"kind": kind, "what": "%s/%s: %d circuits, e.g. %s" % (fw, mode, len(lst), " || ".join(lst[:2])), "cex": {"circuits": lst[:5]}, "replayed": True})
     res["circuits"] = n
     res["skipped"] = skipped
+    # sensitivity: an import with two wires exchanged must be told apart from the source
+    a = circorp.build([["h", [0]], ["cx", [0, 1]], ["cp", [1, 2], math.pi / 4], ["ccx", [0, 1, 2]]], 3)
+    xs = [z3.Bool("x%d" % i) for i in range(3)]
+    wrong = [(g, list(reversed(w)) if len(w) == 3 else w, p) for g, w, p in a.gates]
+    q, _ = qamp.equal_unitaries_query(a.gates, wrong, 3, xs)
+    res["negctl"] = st.check(solver, q) == "sat"
     return st.into(res)
 
 
@@ -411,6 +417,7 @@ def coverage(specs, results):
         "disagreements_checked": sum(1 for r in results if r["findings"]),
         "samples": [{"exporter": "qasm3/circuit", "circuit": "x0 h1 cx01 ccx012 cp(pi/4)01", "verdict": "parsed text re-imported with formal k = qubit k implements the same unitary; formals == qubits"}],
         "exports_by_framework_mode": dict(fam),
+        "negative_controls": {"run": sum(1 for r in results if "negctl" in r), "detected": sum(1 for r in results if r.get("negctl"))},
         "skipped_outside_reader": sum(r.get("skipped", 0) for r in results),
         "skip_reasons": dict(sum((collections.Counter(r.get("skip_reasons", {})) for r in results), collections.Counter())),
         "distinct_nontrivial": total,
